@@ -39,7 +39,7 @@ type c03Step struct {
 	LT     c03LT   `json:"lt"`
 	Prune  bool    `json:"prune,omitempty"`
 	PPLT   c03LT   `json:"pplt"`            // LTime field of the push/pull
-	Sub    int     `json:"sub,omitempty"`   // kind 6: 0 NotifyJoin 1 NotifyLeave 2 leave intent 3 join intent
+	Sub    int     `json:"sub,omitempty"`   // kind 6: 0 NotifyJoin 1 NotifyLeave 2 leave intent 3 join intent; kind 1: layout of the left list (0 self, 1 ghost+self, 2 self twice, 3 other+self+ghost, the others with status times of their own)
 	Burst  []c03LT `json:"burst,omitempty"` // kind 8
 	Prunes []bool  `json:"prunes,omitempty"`
 }
@@ -71,6 +71,7 @@ func genC03(t *rapid.T) c03Case {
 			st.LT = genC03LT(t)
 			st.PPLT = genC03LT(t)
 			st.Prune = rapid.Bool().Draw(t, "joinflag")
+			st.Sub = rapid.IntRange(0, 3).Draw(t, "layout")
 		case 2:
 			st.Prune = rapid.Bool().Draw(t, "prune")
 		case 6:
@@ -137,6 +138,36 @@ func bodyC03(c c03Case, x *vkit.Ctx) {
 		return out
 	}
 	statusLT := func() uint64 { s, _ := n.Serf.VerifStatusLTime(self); return uint64(s) }
+	// latestJoin is the harness's own notion of "the member's own latest join":
+	// the newest join intent about self the node has put on its broadcast queue
+	// (its own joins, its refutations, and joins about itself that it adopted
+	// from gossip and passed on; the queue never drains in this harness), 0 for
+	// a node that has not sent any. It is NOT the status time the node keeps.
+	latestJoin := func() uint64 {
+		var mx uint64
+		for _, j := range selfJoins() {
+			mx = max(mx, j)
+		}
+		return mx
+	}
+	// advertisedLeft: would the node list itself as departed in a state sync?
+	advertisedLeft := func(si int, what string) bool {
+		buf := n.Delegate.LocalState(false)
+		if len(buf) < 1 || buf[0] != serf.VerifMessagePushPullType {
+			return false
+		}
+		var pp serf.VerifMessagePushPull
+		if serf.VerifDecodeMessage(buf[1:], &pp) != nil {
+			return false
+		}
+		for _, name := range pp.LeftMembers {
+			if name == self {
+				x.Violationf("self-advertised-as-left", "step %d (%s): the node's push/pull state lists the node itself among the left members", si, what)
+				return true
+			}
+		}
+		return false
+	}
 	// aliveCheck: self must be listed, alive.
 	aliveCheck := func(si int, what string) bool {
 		found := 0
@@ -155,6 +186,9 @@ func bodyC03(c c03Case, x *vkit.Ctx) {
 		}
 		if st := n.Serf.LocalMember().Status; st != serf.StatusAlive {
 			x.Violationf("self-not-alive", "step %d (%s): LocalMember().Status = %v", si, what, st)
+			return false
+		}
+		if advertisedLeft(si, what) {
 			return false
 		}
 		return true
@@ -193,7 +227,7 @@ func bodyC03(c c03Case, x *vkit.Ctx) {
 	refuted, stale, viaPP, viaLocal, viaGossip, withPrune, bursts, top, extraJoin := 0, 0, 0, 0, 0, 0, 0, 0, 0
 	otherUp := false
 	for si, st := range c.Steps {
-		before := statusLT()
+		before := latestJoin()
 		joinsBefore := len(selfJoins())
 		claim, isClaim, what := uint64(0), false, ""
 		switch st.Kind {
@@ -208,6 +242,16 @@ func bodyC03(c c03Case, x *vkit.Ctx) {
 				LTime:        serf.LamportTime(resolve(st.PPLT)),
 				StatusLTimes: map[string]serf.LamportTime{self: serf.LamportTime(claim - 1)},
 				LeftMembers:  []string{self},
+			}
+			switch st.Sub % 4 {
+			case 1:
+				pp.LeftMembers = []string{"ghost", self}
+				pp.StatusLTimes["ghost"] = serf.LamportTime(claim)
+			case 2:
+				pp.LeftMembers = []string{self, self}
+			case 3:
+				pp.LeftMembers = []string{other, self, "ghost"}
+				pp.StatusLTimes[other] = serf.LamportTime(satAdd(claim, 3))
 			}
 			n.Delegate.MergeRemoteState(encPushPull(pp), st.Prune)
 			viaPP++
@@ -278,12 +322,15 @@ func bodyC03(c c03Case, x *vkit.Ctx) {
 				vals = append(vals, resolve(l))
 			}
 			r0 := refuteLogs()
-			var mx uint64
+			var mx, first uint64
 			newer := false
 			for i, v := range vals {
 				pr := i < len(st.Prunes) && st.Prunes[i]
 				n.Delegate.NotifyMsg(encLeave(v, self, pr))
 				if v > before {
+					if !newer {
+						first = v
+					}
 					newer = true
 					mx = max(mx, v)
 				}
@@ -295,6 +342,11 @@ func bodyC03(c c03Case, x *vkit.Ctx) {
 			if newer {
 				refuted++
 				if !awaitRefutation(si, what, mx, false) {
+					return
+				}
+				// The first claim of the burst that is newer than the latest join
+				// met no refutation in flight: its answer has to be strictly newer.
+				if !awaitRefutation(si, what+" (first newer claim)", first, !tainted) {
 					return
 				}
 				// How many refutation goroutines the burst started depends on
